@@ -159,6 +159,8 @@ class C16(BaseCheck):
                         o['pos_key'] = r.choice([ABSENT, key])
                 if mode != 'none' and r.random() < 0.5:
                     o['after'] = True
+                elif mode == 'none' and r.random() < 0.25:
+                    o['after'] = True       # a modifier without the argument it modifies: no position is given, so none changes
                 if r.random() < p_refuse:
                     o['replace'] = False
                 if r.random() < p_refuse / 2:
